@@ -126,10 +126,11 @@ FIXED = {
  "fs:delete-missing-key-error": "fe75a0e",
  "fs:missing-bucket-reported-as-missing-key": "391a940",
  "fs:delete-objects-in-missing-bucket": "902249e",
+ "fs:head-without-etag": "3751248",
 }
 # repairs whose text says explicitly that it describes the code before the repair
 BEFORE = {"fs:head-missing-key-code", "fs:delete-missing-key-error", "fs:missing-bucket-reported-as-missing-key",
-          "fs:delete-objects-in-missing-bucket"}
+          "fs:delete-objects-in-missing-bucket", "fs:head-without-etag"}
 
 lines, findings = [], []
 for i, (cls, ops, what) in enumerate(W, 1):
